@@ -93,6 +93,18 @@ def standin_independence(tier, seed):
         if p1[ids[0]] != p2[ids[0]]:
             violations.append(dict(key=f"{kind}: personalised parameters of {ids[0]} changed when other individuals' data changed",
                                    before=str(p1[ids[0]]), after=str(p2[ids[0]])))
+        # ... and the other way round: only the FIRST individual's observations change (same visits, same order, same seed);
+        # every other individual is optimised from the same start on the same data and must come out bit-identical
+        df4 = df.copy()
+        first = df4["ID"] == ids[0]
+        df4.loc[first, ["f0", "f1", "f2"]] = np.clip(df4.loc[first, ["f0", "f1", "f2"]].to_numpy() * 0.5 + 0.2, 0.01, 0.99)
+        i4, p4 = personalize(model, df4, seed)
+        evals += 1
+        distinct.add((kind, "perso-first"))
+        changed = [sid for sid in ids[1:] if p1[sid] != p4[sid]]
+        if changed:
+            violations.append(dict(key=f"{kind}: personalised parameters of the other individuals changed when only the first individual's data changed",
+                                   individuals=changed, before=str(p1[changed[0]]), after=str(p4[changed[0]])))
         if tier != "quick" or kind == "logistic":
             i3, p3 = personalize(model, df, seed, n_jobs=2)
             evals += 1
